@@ -243,6 +243,13 @@ def run(tier, seed):
                        "trace": next(t for t in traces if t["tid"] == tid)})
     for t in traces[:2] + traces[len(traces) // 2: len(traces) // 2 + 1]:
         run.sample(t)
+    if not rejected:
+        victim = next(t for t in traces if any(e["fr"] for e in t["events"]))
+
+        def corrupt(t):
+            e = next(e for e in t["events"] if e["fr"])
+            e["fr"][0][0] += 1
+        common.assert_binding_live(run, "TraceStftDef", "TraceStftDef.cfg", victim, corrupt, "one sample index of one frame changed")
     # 3. real sizes, value level and count level (TraceStftCount), unbounded N (Apalache)
     real_size_values(run, tier, rng)
     real_size_count_traces(run, tier, rng)
